@@ -333,6 +333,27 @@ func checkEngineUnion(r *Run, p *Prog) {
 			return true
 		})
 	}
+	// a function also consults the virtual map when a package-local function it calls does
+	for changed := true; changed; {
+		changed = false
+		for _, fn := range p.FuncsOfPkg("cesium") {
+			t := fn.Top()
+			if uses[t] == nil || uses[t].v {
+				continue
+			}
+			for _, call := range CallsIn(fn, func(o types.Object, _ *ast.CallExpr) bool {
+				f, ok := o.(*types.Func)
+				return ok && p.ByObj[f.Origin()] != nil && p.ByObj[f.Origin()].Pkg == fn.Pkg
+			}) {
+				// only through a pure predicate (one boolean result, no calls, no stores): a
+				// helper that does work of its own is judged on its own
+				if g := p.ByObj[CalleeFunc(fn, call)]; g != nil && uses[g.Top()] != nil && uses[g.Top()].v && isPurePredicate(g) {
+					uses[t].v = true
+					changed = true
+				}
+			}
+		}
+	}
 	var fns []*FuncNode
 	for f := range uses {
 		fns = append(fns, f)
@@ -683,48 +704,78 @@ func checkNameAndOverwrite(r *Run, p *Prog) {
 	}
 }
 
-// checkNewChannelKey decides C15.R6.
+// checkNewChannelKey decides C15.R6 by truth table (E17) over "ch.Key is in dbs.unary" and
+// "ch.Key is in dbs.virtual".
 func checkNewChannelKey(r *Run, p *Prog) {
 	fn := p.Func("cesium", "DB", "validateNewChannel")
 	if fn == nil {
 		r.Undecide("C15.R6: cesium.DB.validateNewChannel not found")
 		return
 	}
-	c := p.CFG(fn)
 	ch := paramObj(fn, 0)
-	for _, mapName := range []string{"unary", "virtual"} {
-		var okObj types.Object
-		inspectNoLit(fn.Body, func(n ast.Node) bool {
-			as, isAs := n.(*ast.AssignStmt)
-			if !isAs || len(as.Lhs) != 2 || len(as.Rhs) != 1 {
-				return true
-			}
-			ix, isIx := ast.Unparen(as.Rhs[0]).(*ast.IndexExpr)
-			if !isIx {
-				return true
-			}
-			sel, isSel := ast.Unparen(ix.X).(*ast.SelectorExpr)
-			if !isSel || sel.Sel.Name != mapName {
-				return true
-			}
-			if f, isF := isFieldOfObj(fn, ix.Index, ch); isF && f == "Key" {
-				okObj = objOf(fn, as.Lhs[1])
-			}
-			return true
-		})
-		if okObj == nil {
-			r.Ob("C15.R6.newkey", "validateNewChannel looks ch.Key up in dbs."+mapName, p.Position(fn.Pos()), false, "no comma-ok lookup of ch.Key in the "+mapName+" map")
-			continue
+	classify := func(ev *ttEval, st *ttState, f *FuncNode, e ast.Expr) (string, bool, bool) {
+		ix, ok := ast.Unparen(e).(*ast.IndexExpr)
+		if !ok {
+			return "", false, false
 		}
-		absent := c.EdgesEstablishing(func(atom ast.Expr, val bool) bool { return objOf(fn, atom) == okObj && !val })
-		q, vis := c.ReachAvoiding([]Point{c.Entry()}, absent, nil)
-		var path []string
-		for _, ex := range c.Exits() {
-			if ex.Return != nil && vis[ex.P] && mayReturnNilError(fn, ex.Return) {
-				path = q.PathTo(ex.P)
-			}
+		sel, ok := ast.Unparen(ix.X).(*ast.SelectorExpr)
+		if !ok || (sel.Sel.Name != "unary" && sel.Sel.Name != "virtual") {
+			return "", false, false
 		}
-		r.ObPath("C15.R6.newkey", "validateNewChannel accepts a channel only when its key is not in dbs."+mapName, p.Position(fn.Pos()), len(absent) > 0 && path == nil,
-			"a second channel under a key the engine already holds", path)
+		f2, k := ev.resolve(st, f, ix.Index)
+		ks, ok := ast.Unparen(k).(*ast.SelectorExpr)
+		if !ok || ks.Sel.Name != "Key" {
+			return "", false, false
+		}
+		f3, base := ev.resolve(st, f2, ks.X)
+		if objOf(f3, base) != ch {
+			return "", false, false
+		}
+		return sel.Sel.Name, false, true
 	}
+	outcome := func(f *FuncNode, ret *ast.ReturnStmt, results []ttVal) string { return ttErrOutcome(ret, results) }
+	table, bad := ttTable(p, fn, []string{"unary", "virtual"}, classify, outcome, false)
+	if bad != "" {
+		r.Undecide("C15.R6: validateNewChannel could not be evaluated: %s", bad)
+		return
+	}
+	accepts := table[0]["ok"]
+	for i, mapName := range []string{"unary", "virtual"} {
+		okMap := true
+		for mask, outs := range table {
+			if mask&(1<<i) != 0 && outs["ok"] {
+				okMap = false
+			}
+		}
+		r.Ob("C15.R6.newkey", "validateNewChannel accepts a channel only when its key is not in dbs."+mapName, p.Position(fn.Pos()), okMap && accepts,
+			"a second channel can be accepted under a key the engine already holds (truth table over the two lookups of ch.Key)")
+	}
+}
+
+// isPurePredicate: one boolean result; the body only looks things up (no calls other than
+// builtins, no stores to fields or through indexes).
+func isPurePredicate(g *FuncNode) bool {
+	sig, _ := g.Obj.Type().(*types.Signature)
+	if sig == nil || sig.Results().Len() != 1 || !isBoolType(sig.Results().At(0).Type()) {
+		return false
+	}
+	pure := true
+	inspectNoLit(g.Body, func(n ast.Node) bool {
+		switch v := n.(type) {
+		case *ast.CallExpr:
+			if _, isB := Callee(g, v).(*types.Builtin); !isB {
+				pure = false
+			}
+		case *ast.AssignStmt:
+			for _, l := range v.Lhs {
+				if _, isID := ast.Unparen(l).(*ast.Ident); !isID {
+					pure = false
+				}
+			}
+		case *ast.GoStmt, *ast.DeferStmt, *ast.SendStmt:
+			pure = false
+		}
+		return true
+	})
+	return pure
 }
